@@ -129,3 +129,13 @@ Proof.
   intros X l. induction l as [|x l IH]; [reflexivity|].
   unfold keep_true in *. cbn. exact IH.
 Qed.
+
+(* the defaulted positional pick used by the nested-list specifications (Model/RaggedSpec.v `pick_rows`/`pick_cols`) *)
+Lemma map_nth_nonzero : forall {X} (m : list bool) (l : list X) (d : X),
+  length m = length l -> map (fun i => nth i l d) (nonzero m) = keep_true m l.
+Proof.
+  intros X m l d H.
+  assert (Hb : Forall (fun i => i < length l) (nonzero m)) by (rewrite <- H; apply nonzero_bound).
+  pose proof (tgather_nth l (nonzero m) d Hb) as H1.
+  rewrite (tgather_nonzero m l H) in H1. injection H1 as H1. symmetry. exact H1.
+Qed.
